@@ -841,6 +841,10 @@ func (c *SpecCtx) call(n *Node) SV {
 		// fmtv(b): fmt.Sprintf("%v", b) of a byte slice - an uninterpreted function of its bytes
 		x := c.eval(n.Args[0])
 		return SV{T: e.fmtBytes(c.cur, x.T), Sort: "Str", Ty: types.Typ[types.String]}
+	case "bytesCmp":
+		// bytesCmp(a, b): bytes.Compare of two byte slices in the current state, uninterpreted
+		x, y := c.eval(n.Args[0]), c.eval(n.Args[1])
+		return SV{T: e.bytesCmp(c.cur, x.T, y.T), Sort: "Int", Ty: types.Typ[types.Int]}
 	case "formatFloat":
 		// formatFloat(v): strconv.FormatFloat(v, 'f', -1, 64), uninterpreted
 		x := c.eval(n.Args[0])
